@@ -37,7 +37,7 @@ REQUIRED_COUNTERS = [
     "c15.class.construct", "c15.construct.strided-buffer", "c15.class.alias", "c15.class.getitem1", "c15.class.getitem2",
     "c15.class.setitem1", "c15.class.setitem2", "c15.class.binop", "c15.class.inplace",
     "c15.class.unary", "c15.class.size", "c15.class.query", "c15.class.elementwise", "c15.class.overflow",
-    "c15.class.mutate-result", "c15.self-index.both", "c15.overflow.index2-beyond-int32", "c15.overflow.numbers-only-mul", "c15.overflow.numbers-only-emax",
+    "c15.class.mutate-result", "c15.construct.from-buffer-with-earlier-export-alive", "c15.self-index.both", "c15.overflow.index2-beyond-int32", "c15.overflow.numbers-only-mul", "c15.overflow.numbers-only-emax",
     "c15.index.int", "c15.index.negint", "c15.index.int-oor", "c15.index.slice", "c15.index.list",
     "c15.index.list-neg", "c15.index.list-oor", "c15.index.list-empty", "c15.index.imat", "c15.index.imat-neg",
     "c15.index.imat-oor",
@@ -83,6 +83,12 @@ def run(ctx):
         rng = c.rng
         real = dict(real_base)
         ref = dict(ref_base)
+        # buffer exports held across later statements: the library side keeps real memoryviews, the model needs none
+        held = []
+        real["hold"] = lambda A: held.append(memoryview(A))
+        ref["hold"] = lambda A: None
+        real["viewof"] = lambda A: memoryview(A)
+        ref["viewof"] = lambda A: ref_base["matrix"](A)
         ls = Lockstep(c, ctx, real, ref, NAMES, "c15")
         labels = set()
 
@@ -466,6 +472,24 @@ def run(ctx):
                 src = "(%d.0, %d)" % (r.m, r.n)
             do("%s.size = %s" % (p, src), "size:" + kind)
 
+        def g_heldview():
+            """construction from the buffer of a matrix while an earlier export of it is still alive, after a size change"""
+            cands = [n for n in ls.live() if isinstance(ls.ref[n], Ref)]
+            if not cands:
+                return
+            p = rng.choice(cands)
+            r = ls.ref[p]
+            if do("_ = hold(%s)" % p, "heldview:hold", "_") != "ok":
+                return
+            k = r.m * r.n
+            if k and rng.random() < 0.8:
+                d = rng.choice(divisors(k))
+                do("%s.size = (%d, %d)" % (p, d, k // d), "heldview:size-change-with-live-export")
+            t = target()
+            form = rng.choice(["matrix(viewof(%s))" % p, "matrix(viewof(%s), tc='%s')" % (p, "z" if r.tc != "i" else rng.choice("idz"))])
+            ctx.count("c15.construct.from-buffer-with-earlier-export-alive")
+            do("%s = %s" % (t, form), "construct:from-buffer-with-earlier-export-alive")
+
         def g_query():
             p = pick()
             r = ls.ref[p]
@@ -582,7 +606,7 @@ def run(ctx):
                    "col": "%s[:, %s] = %d" % (t, t, big), "single": "%s[%s] = %d" % (t, t, big)}[form]
             do(src, "setitem2:self-index-" + form)
 
-        GENS = [(g_selfindex, 0.8), (g_construct, 14), (g_alias, 5), (lambda: g_getitem(False), 9), (lambda: g_getitem(True), 9),
+        GENS = [(g_selfindex, 0.8), (g_heldview, 1.0), (g_construct, 14), (g_alias, 5), (lambda: g_getitem(False), 9), (lambda: g_getitem(True), 9),
                 (lambda: g_setitem(False), 9), (lambda: g_setitem(True), 9), (g_binop, 16), (g_inplace, 12),
                 (g_unary, 6), (g_size, 4), (g_query, 6), (g_elementwise, 7), (g_overflow, 1.2)]
         tot = sum(w for _, w in GENS)
